@@ -3142,6 +3142,15 @@ class Set(Collection):
         undo = []
         cache = item._session_cache_
         objects_with_modified_collections = cache.modified_collections[attr]
+        def undo_func():
+            for obj, in_removed, was_modified_earlier in undo:
+                setdata = obj._vals_[attr]
+                setdata.remove(item)
+                if setdata.count is not None: setdata.count -= 1
+                if in_removed: setdata.removed.add(item)
+                else: setdata.added.remove(item)
+                if not was_modified_earlier: objects_with_modified_collections.remove(obj)
+        undo_funcs.append(undo_func)  # registered before the loop: if it fails midway, the objects handled so far are restored
         for obj in objects:
             setdata = obj._vals_.get(attr)
             if setdata is None: setdata = obj._vals_[attr] = SetData()
@@ -3156,15 +3165,6 @@ class Set(Collection):
             if in_removed: setdata.removed.remove(item)
             else: setdata.added.add(item)
             objects_with_modified_collections.add(obj)
-        def undo_func():
-            for obj, in_removed, was_modified_earlier in undo:
-                setdata = obj._vals_[attr]
-                setdata.remove(item)
-                if setdata.count is not None: setdata.count -= 1
-                if in_removed: setdata.removed.add(item)
-                else: setdata.added.remove(item)
-                if not was_modified_earlier: objects_with_modified_collections.remove(obj)
-        undo_funcs.append(undo_func)
     def db_reverse_add(attr, objects, item):
         for obj in objects:
             setdata = obj._vals_.get(attr)
@@ -3176,6 +3176,15 @@ class Set(Collection):
         undo = []
         cache = item._session_cache_
         objects_with_modified_collections = cache.modified_collections[attr]
+        def undo_func():
+            for obj, in_added, was_modified_earlier in undo:
+                setdata = obj._vals_[attr]
+                setdata.add(item)
+                if setdata.count is not None: setdata.count += 1
+                if in_added: setdata.added.add(item)
+                else: setdata.removed.remove(item)
+                if not was_modified_earlier: objects_with_modified_collections.remove(obj)
+        undo_funcs.append(undo_func)  # registered before the loop: if it fails midway, the objects handled so far are restored
         for obj in objects:
             setdata = obj._vals_.get(attr)
             assert setdata is not None
@@ -3190,15 +3199,6 @@ class Set(Collection):
             if setdata.count is not None: setdata.count -= 1
             if in_added: setdata.added.remove(item)
             else: setdata.removed.add(item)
-        def undo_func():
-            for obj, in_added, was_modified_earlier in undo:
-                setdata = obj._vals_[attr]
-                setdata.add(item)
-                if setdata.count is not None: setdata.count += 1
-                if in_added: setdata.added.add(item)
-                else: setdata.removed.remove(item)
-                if not was_modified_earlier: objects_with_modified_collections.remove(obj)
-        undo_funcs.append(undo_func)
     def db_reverse_remove(attr, objects, item):
         for obj in objects:
             setdata = obj._vals_[attr]
